@@ -88,6 +88,8 @@ NEEDED = {
  'C15-12': 'clause: a successful propagation makes the group\'s copy of the pause state equal to the global one',
  'C19-12': 'permissionless payout for an account whose authority never chose a destination, into the all-zero wallet\'s token account',
  'C16-12': 'emptiness tightened: an account may be closed only if no active position holds anything at all (C02 caught it as it stood)',
+ # round 5
+ 'C04-14': 'collateral state with a configured maximum oracle age of 30 s and a 45 s old price (C09 caught it as it stood)',
  'C20-7': 'reserve-composition sweep: total liquidity = available + borrowed - fees with fees above the borrowed amount, fractional parts, through the real Kamino / Solend total-liquidity functions and conversions',
  'C08-7': '(caught by the sibling check C10: two start instructions in one transaction)',
  'C08-8': "C12 'nobody' cells: the permissionless staked-settings propagation aimed at ordinary banks",
